@@ -387,6 +387,8 @@ inductive REv where
   | called (id : Int) (h : Nat)         -- service handler #h ran for inbound request id
   | answered (id : Int) (code : Int)    -- proto_->sendResult(id, …) (code 0) / sendError(id, code)
   | overflow                            -- the model's nesting budget ran out (never in accepted runs)
+  | misuse                              -- request/notify/respond/cleanup on a cleaned-up object (null proto_):
+                                        --   a precondition violation; refused and flagged, never executed
 deriving Repr, DecidableEq
 
 def kRequestTimeout : Int := -32000
@@ -484,7 +486,11 @@ def Rpc.request (s : Rpc) (script : Nat) (m : Nat := 0) : Rpc × List REv :=
 /-- `Rpc::respond(id, …)` (all three overloads): sends whenever `id ≠ 0` — `tobe_respond_` is not
 consulted — and erases the id -/
 def Rpc.apiRespond (s : Rpc) (id code : Int) : Rpc × List REv :=
-  if id = 0 then (s, []) else ({ s with srv := s.srv.erase id }, [.answered id code])
+  if id = 0 then (s, []) else if s.dead then (s, [.misuse])
+  else ({ s with srv := s.srv.erase id }, [.answered id code])
+
+/-- calls that dereference `proto_`: on a cleaned-up object they are refused (and flagged) -/
+def Rpc.guard (s : Rpc) (r : Rpc × List REv) : Rpc × List REv := if s.dead then (s, [.misuse]) else r
 
 /-- `Rpc::cleanup()` -/
 def Rpc.cleanup (s : Rpc) : Rpc :=
@@ -498,8 +504,8 @@ def Rpc.setService (s : Rpc) (m : Nat) (h : Option Nat) : Rpc :=
 /-- one act of a callback script; `k` handles a response arriving re-entrantly, `cur` is the id
 being served when the script is a service handler -/
 def doAct (k : Rpc → Int → Int → Rpc × List REv) (cur : Int) (s : Rpc) : Act → Rpc × List REv
-  | .request cb m => s.request cb m
-  | .notify m => (s, [.sent 0 m])
+  | .request cb m => s.guard (s.request cb m)
+  | .notify m => s.guard (s, [.sent 0 m])
   | .respond id code => s.apiRespond id code
   | .respondCur code => s.apiRespond cur code
   | .inject rid code =>
@@ -507,7 +513,7 @@ def doAct (k : Rpc → Int → Int → Rpc × List REv) (cur : Int) (s : Rpc) : 
     | none => (s, [])
     | some id => k s id code
   | .setService m h => (s.setService m h, [])
-  | .cleanup => (s.cleanup, [])
+  | .cleanup => s.guard (s.cleanup, [])
 
 def runActsWith (k : Rpc → Int → Int → Rpc × List REv) (cur : Int) (s : Rpc) : List Act → Rpc × List REv
   | [] => (s, [])
@@ -607,15 +613,15 @@ inductive Op where
 deriving Repr, DecidableEq
 
 def step (s : Rpc) : Op → Rpc × List REv
-  | .request script m => s.request script m
-  | .notify m => (s, [.sent 0 m])
+  | .request script m => s.guard (s.request script m)
+  | .notify m => s.guard (s, [.sent 0 m])
   | .response id code => s.respond id code
   | .tick => s.tick
   | .apiRespond id code => s.apiRespond id code
-  | .inRequest id m => s.onRequest id m
+  | .inRequest id m => if s.dead then (s, []) else s.onRequest id m   -- cleanup() cleared the proto's callbacks
   | .stick => ({ s with srv := s.srv.tick }, [])
   | .setService m h => (s.setService m h, [])
-  | .cleanup => (s.cleanup, [])
+  | .cleanup => s.guard (s.cleanup, [])
 
 def run (s : Rpc) : List Op → Rpc × List REv
   | [] => (s, [])
